@@ -228,9 +228,10 @@ pub fn drive(
     rep.assumptions = assumptions.iter().map(|s| s.to_string()).collect();
     let known = open_known(prop);
     let w = workers();
-    let per_worker = tier.pick(cases.0, cases.1) / w as u32;
+    let (round, rounds) = dv_core::evidence::round();
+    let per_worker = tier.pick(cases.0, cases.1) / w as u32 / rounds as u32;
     let reg2 = reg.clone();
-    let out = run_cases(prop, rep.seed, w, per_worker, gen, move |case, stats| match test(&reg2, case, stats) {
+    let out = run_cases(prop, rep.seed.wrapping_add(round.wrapping_mul(0x9E37_79B9)), w, per_worker, gen, move |case, stats| match test(&reg2, case, stats) {
         Verdict::Violation(sig, d) if known.contains_key(&sig) => {
             let _ = d;
             Verdict::Known(sig)
